@@ -457,8 +457,15 @@ func Concretise(d Doc, p Pool, n int) []byte {
 		b.WriteString(ind(3) + "</p>" + nl)
 	}
 	b.WriteString(ind(2) + "</div>" + nl + ind(1) + "</body>" + nl + "</tt>" + nl)
+	if d.Prefix && n%2 == 0 {
+		// spelling variant: the elements of the TT namespace carry a prefix too (<tt:p>, <tt:span>, <tt:br/>)
+		out := reTTElement.ReplaceAll(b.Bytes(), []byte("<${1}tt:${2}${3}"))
+		return bytes.Replace(out, []byte(`<tt:tt xmlns="http://www.w3.org/ns/ttml"`), []byte(`<tt:tt xmlns:tt="http://www.w3.org/ns/ttml"`), 1)
+	}
 	return b.Bytes()
 }
+
+var reTTElement = regexp.MustCompile(`<(/?)(tt|head|metadata|styling|style|layout|region|body|div|p|span|br)([ />])`)
 
 func attrsOf(se xml.StartElement) (abs.IntMap, map[string]string) {
 	m := abs.IntMap{}
